@@ -126,6 +126,17 @@ class Net:
             self.outs.append(out)
             self.muxes.append({"sel": sel, "out": out, "kind": "running" if mode == 1 else "active",
                                "inputs": [inp], "default": "null", "id": len(self.muxes)})
+        # CPU tracks (connect_cpu for one channel): select + one raw channel per "thread"
+        for _ in range(r.choice([0, 0, 0, 1, 2])):
+            sel = r.choice(self.raw)
+            rs = [r.choice(self.raw) for _ in range(r.randrange(1, 5))]
+            dflt = r.choice(["null", "null", "7", "0"])
+            self.lines.append("cputrack %d %s %s" % (sel, dflt, " ".join(map(str, rs))))
+            out = len(self.chans)
+            self.chans.append({"stack": False, "props": ()})
+            self.outs.append(out)
+            self.muxes.append({"sel": sel, "out": out, "kind": "index", "inputs": rs, "default": dflt,
+                               "id": len(self.muxes)})
         for c in range(len(self.chans)):
             if c in self.outs or r.random() < 0.3:
                 self.lines.append("emit %d" % c)
@@ -231,6 +242,11 @@ class ScriptNet:
                     self.outs.append(int(w[3]))
             elif w[0] == "input" and o == "ok":
                 self.muxes[int(w[1])]["inputs"][int(w[2])] = int(w[3])
+            elif w[0] == "cputrack" and o.startswith("ok"):
+                self.muxes.append({"id": len(self.muxes), "sel": int(w[1]), "out": nchans, "kind": "index",
+                                   "inputs": [int(x) for x in w[3:]], "default": w[2]})
+                self.outs.append(nchans)
+                nchans += 1
             elif w[0] == "track" and o.startswith("ok"):
                 mode = int(w[1])
                 if mode != 0:
